@@ -59,6 +59,7 @@ let bytes_mode () =
             | None -> Printf.printf "%s InitFail %s\n" id (hex x)
             | Some e -> report id nlink_one check x (gzip_process e x))
          | "ar" -> report id nlink_one check x (ar_process epoch x)
+         | "pyc-zero-mtime" -> report id nlink_one check x (pyc_zero_mtime x)
          | _ -> Printf.printf "%s NoModel -\n" id)
       | _ -> ()
     done
@@ -85,6 +86,7 @@ let handler_fun name epoch =
   match name with
   | "gzip" -> (match gzip_init epoch with Some e -> Some ((fun x -> gzip_process e x), (fun _ -> false)) | None -> None)
   | "ar" -> Some ((fun x -> ar_process epoch x), ar_opens_output)
+  | "pyc-zero-mtime" -> Some ((fun x -> pyc_zero_mtime x), (fun _ -> false))
   | _ -> None
 
 let fs_mode file =
